@@ -150,8 +150,53 @@ def builtin_job(name, oc):
             'inconclusive': list(ex.inconclusive), 'wall_s': time.time() - t0, 'panic_paths': len([x for x in results if x.status != 'return'])}
 
 
+def builtin_str_job(name, k, oc):
+    """eval_builtin_function("substring" | "len", ...) on a string of k symbolic characters (any code points, so multi-byte ones too) and symbolic
+    integer bounds: the index arithmetic and slicing must not panic (character-sequence string model, vlib/strmodel.py)"""
+    from vlib import containers, strmodel
+    from vlib.symex import StrConst
+    from vlib.containers import ListModel
+    mods = _MODS[oc]; t0 = time.time()
+
+    def h_streq(ex, st, callee, args):
+        a, b = args[0], args[1]
+        while isinstance(a, Ptr): a = a.get()
+        while isinstance(b, Ptr): b = b.get()
+        if isinstance(a, StrConst) and isinstance(b, StrConst): return BoolVal(a.lit == b.lit)
+        return NotImplemented
+
+    def h_box_deref(ex, st, callee, args):
+        v = args[0]
+        while isinstance(v, Ptr): v = v.get()
+        return box(v) if isinstance(v, strmodel.CStr) else NotImplemented
+    cs = [z3.BitVec('ch%d' % i, 32) for i in range(k)]
+    st = State()
+    for c in cs: st.path.assume(And(z3.ULT(c, 0x110000), Or(z3.ULT(c, 0xD800), z3.UGT(c, 0xDFFF))))        # any Unicode scalar value
+    sval = Enum('Value', BitVecVal(V.vdisc('Str'), 64), {'Str': [box(strmodel.CStr(cs))]})
+    nargs = {'len': 1, 'substring2': 2, 'substring3': 3}[name]
+    vals = [sval] + [Enum('Value', BitVecVal(V.vdisc('Int'), 64), {'Int': [z3.BitVec('n%d' % i, 64)]}) for i in range(nargs - 1)]
+    hooks = [(r'^<&?str as PartialEq(?:<&?str>)?>::eq$', h_streq), (r'^<Box<str> as (?:std::ops::)?Deref>::deref$|^<Arc<str> as (?:std::ops::)?Deref>::deref$', h_box_deref)]
+    hooks += strmodel.hooks(strmodel.Chars({})) + [(r'^<(?:std::string::)?String as Into<Box<str>>>::into$|^<(?:std::string::)?String as Into<Arc<str>>>::into$', lambda ex, st, callee, args: box(args[0]))]
+    hooks += extra_hooks() + [(rx.pattern, fn) for rx, fn in containers.container_hooks()]
+    ex = V.ValExec(mods, hooks, overflow_checks=oc)
+    sl = Ptr([ListModel(vals)], 0, meta=BitVecVal(nargs, 64))
+    fname = 'len' if name == 'len' else 'substring'
+    results = ex.run(ex.find_func('eval_builtin_function'), [box(StrConst('"%s"' % fname)), sl], st=st)
+    vs = discharge(ex, results, None)
+    out = []
+    for v in vs:
+        d = {'name': v.name, 'status': v.status, 'secs': v.secs, 'kind': v.kind, 'where': v.where}
+        if v.model is not None:
+            m = v.model
+            d.update({'lc': 'Str', 'l': ''.join('\\u{%x}' % m.eval(c, True).as_long() for c in cs), 'rc': 'Int', 'r': ' '.join(str(m.eval(x.fields['Int'][0], True).as_signed_long()) for x in vals[1:])})
+        out.append(d)
+    return {'kind': 'builtin', 'op': '%s(str of %d chars)' % (name, k), 'oc': oc, 'paths': len(results), 'verdicts': out, 'queries': ex.queries, 'solver_s': ex.solver_s,
+            'inconclusive': list(ex.inconclusive), 'wall_s': time.time() - t0, 'panic_paths': len([x for x in results if x.status != 'return'])}
+
+
 def _worker(a):
     try:
+        if a[0] == 'builtin_str': return builtin_str_job(a[1], a[2], a[3])
         if a[0] == 'builtin': return builtin_job(a[1], a[2])
         return job(*a)
     except Exception as e:
@@ -181,7 +226,8 @@ def run(ctx):
     ctx.bounds = {'operators': 'every BinOp (%d) and UnaryOp (%d) variant' % (len(binops), len(unops)), 'operand_values': 'every Value variant; all i64 / f64 / bool payloads symbolic; strings, arrays, maps opaque',
                   'profiles': 'overflow-checks on (dev) and off (release)', 'expr_variants_dispatch': [v for v in exprs if v not in COMPLEX_VARIANTS],
                   'builtins': 'eval_builtin_function for the scalar built-ins %s with arguments of any scalar class (symbolic payloads)' % sorted(BUILTINS),
-                  'outside': 'arms of %s (std iterator/collection/formatting code), the string / array / map built-ins (len, substring, split, sort, range ...), user functions, range sizes' % sorted(COMPLEX_VARIANTS)}
+                  'string_builtins': 'len and substring (2 and 3 arguments) on strings of 0..2 (thorough 3) arbitrary Unicode scalar values with symbolic integer bounds',
+                  'outside': 'arms of %s (std iterator/collection/formatting code), the remaining string / array / map built-ins (thin wrappers over std: split, join, replace, sort, range ...), user functions, range sizes' % sorted(COMPLEX_VARIANTS)}
     ctx.assumptions += ['recursive operand evaluations return an arbitrary Some(Value) of any variant', 'std string/collection comparisons and powi/powf do not panic (trusted std; modelled as fresh values)',
                         'float -> int `as` casts saturate (Rust semantics)']
     tasks = []
@@ -189,6 +235,7 @@ def run(ctx):
         tasks += [('binary', op, oc) for op in binops] + [('unary', op, oc) for op in unops]
         tasks += [('dispatch', v, oc) for v in exprs if v not in COMPLEX_VARIANTS and v not in ('Binary', 'Unary')]
         tasks += [('builtin', b, oc) for b in BUILTINS]
+        tasks += [('builtin_str', nm, k, oc) for nm in ('len', 'substring2', 'substring3') for k in range(0, 4 if ctx.tier == 'thorough' else 3)]
     with ProcessPoolExecutor(max_workers=14, mp_context=mp.get_context('fork')) as pool:
         res = list(pool.map(_worker, tasks))
     bins = {}
@@ -211,7 +258,9 @@ def run(ctx):
                 cmd = ['BIN:%s' % prof, 'recurse', r['op']]
             else:
                 key = 'eval_expr_with_functions:%s:%s:%s:%s' % (r['kind'], r['op'], v['name'].replace('no panic: ', '')[:40], prof)
-                if r['kind'] == 'builtin': cmd = ['BIN:%s' % prof, 'panic', 'builtin', r['op'], v.get('lc', 'Null'), v.get('l', 'x'), v.get('rc', 'Null'), v.get('r', 'x')]
+                if r['kind'] == 'builtin' and '(str of' in r['op']:
+                    cmd = ['BIN:%s' % prof, 'panic', 'builtinstr', 'len' if r['op'].startswith('len') else 'substring', v.get('l', '')] + [x for x in str(v.get('r', '')).split() if x]
+                elif r['kind'] == 'builtin': cmd = ['BIN:%s' % prof, 'panic', 'builtin', r['op'], v.get('lc', 'Null'), v.get('l', 'x'), v.get('rc', 'Null'), v.get('r', 'x')]
                 elif r['kind'] == 'binary': cmd = ['BIN:%s' % prof, 'panic', 'binary', r['op'], v.get('lc', 'Null'), v.get('l', 'x'), v.get('rc', 'Null'), v.get('r', 'x')]
                 else: cmd = ['BIN:%s' % prof, 'panic', 'unary', r['op'], v.get('lc', 'Null'), v.get('l', 'x')]
             if key in bins: continue
